@@ -518,6 +518,16 @@ impl<'a> Engine<'a> {
     fn batch(&self, n: &Node, u: &St, txs: &[Transaction], expect_ok: bool, label: &str, a: &Action) -> StepOut {
         let run = self.run;
         let before = observe(n);
+        if label.contains("chain']") || label.starts_with("[chain'") {
+            // non-vacuity: which denominations the "created in the batch and claimed twice" members cover
+            let d = txs.iter().find(|t| !t.outputs.is_empty() && !label.starts_with("[chain'")).or(txs.get(1)).and_then(|t| t.outputs.first()).map(|o| match o.denom {
+                Denom::Mel => "MEL",
+                Denom::Sym => "SYM",
+                Denom::Erg => "ERG",
+                _ => "custom-or-liquidity-token",
+            });
+            run.outcome(&format!("pairs:batch-created-coin-claimed-twice:{}", d.unwrap_or("?")));
+        }
         let mut next = u.clone();
         let res = guard(|| next.apply_tx_batch(txs));
         let peek = u.verif_peek();
